@@ -315,6 +315,58 @@ def _delivery_agreement(ck, rm):
     ck.floor(R, n, 2, "data_received sites in the body readers")
 
 
+def _settling_helpers(ck, fi, depth=0):
+    """Names of same-class methods (two levels) that settle self._finish_future on every normal path or
+    leave it done."""
+    from ..rules import settle_sites
+
+    cls = fi.qualname.rsplit(".", 1)[0]
+    out = set()
+    for c in q.calls(fi.node):
+        if isinstance(c.func, ast.Attribute) and q.dotted(c.func.value) == "self" and ck.repo.has_func(fi.file, cls + "." + c.func.attr):
+            h = ck.repo.func(fi.file, cls + "." + c.func.attr)
+            if h is fi:
+                continue
+            if settle_sites(h, "self._finish_future") or (depth < 1 and _settling_helpers(ck, h, depth + 1)):
+                if _ended_states(ck, h, depth + 1) is True:
+                    out.add(c.func.attr)
+    return out
+
+
+def _ended_states(ck, fi, depth=0):
+    """True if on every normal path of ``fi`` the finish future is settled (directly or through a settling
+    helper) or known done; False if some path leaves it pending; None if undecidable."""
+    from ..rules import settle_sites
+
+    cfg = fi.cfg
+    direct = {n.id for n, _c, _p, _k in settle_sites(fi, "self._finish_future")}
+    helpers = _settling_helpers(ck, fi, depth) if depth < 2 else set()
+    hcalls = {n.id for n, c in cfg.find(lambda x: isinstance(x, ast.Call) and isinstance(x.func, ast.Attribute) and q.dotted(x.func.value) == "self" and x.func.attr in helpers)}
+    if not direct and not hcalls:
+        return None
+
+    def transfer(n, val):
+        return True if (n.id in direct or n.id in hcalls) else val
+
+    def edge(n, kind, val):
+        # "done" is monotone: once the future is known done it stays done, whatever is called afterwards
+        if n.kind == "test" and kind in ("true", "false"):
+            t, pol = canon_fact(n.ast, kind == "true")
+            if t == "self._finish_future.done()" and pol:
+                return True
+        return val
+
+    seen = explore(cfg, False, transfer, lambda t: False, edge_transfer=edge, follow_exc=False)
+    return all(val for _facts, val in seen.get(cfg.exit.id, ()))
+
+
+def _wait_ended_on_every_path(ck, occ):
+    r = _ended_states(ck, occ)
+    if r is None:
+        return
+    ck.ob("C05.wait-close-callback", occ, occ.node, r, "on every normal path of the stream close callback the wait is ended: _finish_future is settled or already done", construct="exit with _finish_future possibly pending")
+
+
 def _ends_wait(ck, fi, depth):
     """Number of guarded settles of self._finish_future in ``fi`` or in the same-class methods it calls
     (two levels): every settle found must be guarded (checked as obligations)."""
@@ -442,6 +494,7 @@ def run(ck):
     ntc = check_take_and_clear(ck, "C05.wait-close-callback", occ, "self._close_callback", "the application's close callback is taken and cleared before it is invoked (at most once)")
     ck.floor("C05.wait-close-callback", ntc, 1, "uses of self._close_callback in _on_connection_close")
     ns = _ends_wait(ck, occ, 0)
+    _wait_ended_on_every_path(ck, occ)
     ck.floor("C05.wait-close-callback", ns, 1, "settles of _finish_future reachable from _on_connection_close (a disconnect must end the wait)")
 
     # the serving loop ends when the connection is gone: neither an error while reading a request nor a
@@ -559,5 +612,6 @@ MUTANTS = [
     ("serving loop swallows StreamClosedError and continues", _in(H1, "HTTP1ServerConnection._server_request_loop", replace_stmt(lambda st: isinstance(st, ast.Return) and st.value is None, lambda st: [ast.Continue()])), "C05.loop-exits-on-error"),
     ("serving loop ignores a false read_response result", _in(H1, "HTTP1ServerConnection._server_request_loop", remove_stmts(lambda st: isinstance(st, ast.If) and isinstance(st.test, ast.UnaryOp) and isinstance(st.body[0], ast.Return))), "C05.loop-exits-on-error"),
     ("finish() guarded by the finish future instead of _write_finished", _in(H1, "HTTP1Connection._read_message", replace_expr(lambda n: isinstance(n, ast.Attribute) and n.attr == "_write_finished" and isinstance(n.ctx, ast.Load), lambda n: ast.parse("self._finish_future.done()", mode="eval").body, limit=5)), None),
+    ("_on_connection_close returns early when no close callback is registered", _in(H1, "HTTP1Connection._on_connection_close", lambda root: (root.body.insert(0, parse_stmt("if self._close_callback is None:\n    return")) or True)), "C05.wait-close-callback"),
     ("await serving future before closing stream", _in(H1, "HTTP1ServerConnection.close", remove_stmts(lambda st: "self.stream.close" in ast.unparse(st))), "C05.close-order"),
 ]
